@@ -695,7 +695,7 @@ func c07Errors(c *Ctx, g *load.G) {
 				strings.Join(uniq(bad[name]), "; ")+": when the analysis gives up (e.g. no leader candidate) the other results are zero values, so the grammar reads as free of left recursion and is accepted")
 		}
 	}
-	r.Min("C07-e error sites", 3, n)
+	r.Min("C07-e error sites", 2, n)
 }
 
 // c07RuleVisit: the visited-flag protocol of Rule.NullableVisit (rule C07-r).
